@@ -110,8 +110,14 @@ class MetadataManager:
                             f"Table at {self.table_path} was concurrently initialized"
                         ) from e
                 else:
+                    from .storage_backend import DirectorySyncError
+
                     try:
                         self.storage.write_file(self.HINT_PATH, metadata_file.encode("utf-8"))
+                    except DirectorySyncError:
+                        # The hint IS in place (only its durability is unknown)
+                        # and names v0: v0 must stay.
+                        raise
                     except Exception:
                         if self.storage.atomic_write_failures:
                             # Guaranteed not visible: v0 was never published.
@@ -330,10 +336,13 @@ class MetadataManager:
           (ConcurrentModificationException, retryable). Any other error is
           AMBIGUOUS (the PUT may have landed) -> AmbiguousCommitError.
         - Backends with atomic_write_failures (local temp+rename): an exception
-          means the flip did not happen -> propagate as a clean failure.
+          means the flip did not happen -> propagate as a clean failure. Except
+          DirectorySyncError: the hint was renamed into place and only the
+          directory fsync failed - the flip DID happen, it is just not known to
+          be durable -> AmbiguousCommitError (nothing may be deleted).
         - Other backends: an exception is ambiguous -> AmbiguousCommitError.
         """
-        from .storage_backend import CASConflictError
+        from .storage_backend import CASConflictError, DirectorySyncError
 
         content = metadata_file.encode("utf-8")
 
@@ -352,6 +361,10 @@ class MetadataManager:
 
         try:
             self.storage.write_file(self.HINT_PATH, content)
+        except DirectorySyncError as e:
+            raise AmbiguousCommitError(
+                f"Version hint written but its directory entry could not be made durable: {e}"
+            ) from e
         except Exception as e:
             if self.storage.atomic_write_failures:
                 # Guaranteed not visible - clean failure, caller may roll back.
